@@ -19,7 +19,7 @@ TEXT = {
     "C10": ("new stream starts at the parent's position at the snapshot; window facts preserved when the snapshot is still current at publication (known finding F1 otherwise); tie: streams family", "invariant proof (partial: F1) + event correspondence"),
     "C11": ("removed stream is not in the current group; unsubscribe's boolean; tie: streams family + sequential differential", "invariant proof + event correspondence"),
     "C12": ("ModeInv: handle accounting (writers/num_consumers = counted handles, Uni/Single/view handle is the only counted one, one thread per handle) is an invariant of every label of every execution without the two futures conversions, so the single-writer/single-consumer fast paths are exclusive (ModeOK proved) and the C01-C07 ring theorems need no mode hypothesis there; clone/drop steps leave the ring untouched; tie: churn family", "invariant proof + event correspondence"),
-    "C13": ("no-reader flag is set by the removal of the last stream and never cleared; a send that starts afterwards returns Disconnected without touching the ring; tie: sequential differential + fut parking race", "invariant proof + differential"),
+    "C13": ("NRInv, inductive over every label incl. the removal of the last stream: the no-reader flag is raised only when the stream list is empty, then no receiver handle is counted anywhere and an empty list is final; a send that starts afterwards returns Disconnected without touching the ring; tie: sequential differential + fut parking race", "invariant proof + differential"),
     "C14": ("WakeInv for the futures wait: a consumer task parked on the list whose condition holds has a pending notifier that stays pending until it has drained the list (hypothesis: the list lock is mutual exclusion); park re-checks under the lock, notify drains, sink parks only after a locked Full, poll on Empty notifies producers; producers' side (space available => notifier pending) is covered by hang verdicts only; tie: event correspondence + hang verdicts", 'invariant proof (Lean, no-lost-wakeup for parked consumers) + protocol step theorems + hang verdicts'),
     "C15": ("Sink/Stream programs refine the same Spec steps as the plain calls; bounded own steps of poll/start_send; tie: fut family + sequential differential", "refinement + event correspondence"),
     "C16": ("epoch invariant proved inductive over every label of the micro-step model: a dereferenced group and the position blocks of its streams are never released; a released batch needs every registered token at the epoch, which a holder's token is not; retired objects are never reachable again; under explicit hypotheses (ring StepOK, mutex mutual exclusion, handle ownership); tie: every manager event (locks, try_locks, epoch, tokens, signal bits) compared with the model on real executions + use-after-free / double-free monitor with quarantined deallocation", "invariant proof (Lean, EpochInv over RingInv+MgrInv) + event correspondence + allocation-ledger monitor"),
